@@ -334,3 +334,30 @@ let sd_case (f : string array) : string =
         out := (Printf.sprintf "x%d=%s" k r) :: !out
       end) (String.split_on_char ',' f.(2));
   if !out = [] then "-" else String.concat " " (List.rev !out)
+
+(* ---------------- the sending side closes exactly at the last hand-off (C12, pl cases with noearly=1) ---------------- *)
+(* n writers are created, the connection thread ends (the client half-closed), then the threads answer
+   in the given order; a thread whose writer has not got its turn waits. Returns
+   (closed before the last writer was dropped, closed at the end). *)
+let close_run (n : int) (order : int list) : bool * bool =
+  let s = ref Model.cc_init in
+  let st l = match Model.cc_step !s l with Some s' -> s := s'; true | None -> false in
+  for _ = 1 to n do ignore (st (Model.CL Model.New)) done;
+  ignore (st Model.BuilderDrop);
+  let pending = ref (order @ List.filter (fun i -> not (List.mem i order)) (List.init n (fun i -> i))) in
+  let early = ref false in
+  let progress = ref true in
+  while !pending <> [] && !progress do
+    progress := false;
+    (* the first pending thread (in release order) whose writer has its turn *)
+    (match List.filter (fun i -> match Model.cc_step !s (Model.CL (Model.Write (nat_of_int i, [nat_of_int i]))) with Some _ -> true | None -> false) !pending with
+     | i :: _ ->
+         ignore (st (Model.CL (Model.Write (nat_of_int i, [nat_of_int i]))));
+         if Model.cc_closed !s then early := true;
+         ignore (st (Model.CL (Model.DropW (nat_of_int i))));
+         pending := List.filter (fun j -> j <> i) !pending;
+         if !pending <> [] && Model.cc_closed !s then early := true;
+         progress := true
+     | [] -> ())
+  done;
+  (!early, Model.cc_closed !s)
